@@ -66,7 +66,7 @@ def run(ctx, name="MutableLineFile", plain_only=True, adapters_fn=None, init_sym
                 "file's bytes are compared after every step; random 120-operation histories are validated by TLC")
     ctx.assumptions += ["line content without line breaks (carriage returns belong to C11)",
                         "dirty is specified for the plain line variants only"]
-    consts = {"InitSyms": init_syms, "EditSyms": edit_syms, "MaxLen": 3 if quick else 4, "MaxInit": 2, "SliceMode": '"grid"',
+    consts = {"InitSyms": init_syms, "EditSyms": edit_syms, "MaxLen": 3 if quick else 4, "MaxInit": 3, "SliceMode": '"grid"',
               "Variant": '"ok"'}
     model.mc(SPEC, consts, ctx, name, invariants=INVS, properties=PROPS)
     model.mc(SPEC, dict(consts, Variant='"stale"'), ctx, name + "_neg", invariants=INVS, properties=PROPS, expect_violation=True)
